@@ -242,6 +242,28 @@ Fixpoint nest (n : nat) (p : prog) : prog :=
   | S n' => PTry (nest n' p) [] PSkip
   end.
 
+(* The pinned exception_catch walked the filter with `foreach (arg in args)`.  Iteration over a
+   Tuple keeps the current ELEMENT as cursor (Tuple_Iter_Init = items[0]; Tuple_Iter_Next(curr) =
+   the element after the FIRST position holding curr; Terminal at the end), so a filter naming an
+   object twice is walked forever once the first occurrence did not match.  [None] = fuel exhausted.
+   (ExnProofs: equals [existsb] on duplicate-free filters, diverges on [0;0] — second repair.) *)
+Fixpoint tuple_next (items : list nat) (cur : nat) : option nat :=
+  match items with
+  | [] => None
+  | x :: r => if x =? cur then hd_error r else tuple_next r cur
+  end.
+
+Fixpoint foreach_matches (fuel : nat) (items : list nat) (cur : option nat) (k : nat) : option bool :=
+  match fuel with
+  | 0 => None
+  | S f =>
+      match cur with
+      | None => Some false                          (* Terminal: loop left, no match *)
+      | Some c => if Nat.eqb k c then Some true     (* eq(arg, e->obj) *)
+                  else foreach_matches f items (tuple_next items c) k
+      end
+  end.
+
 (* The same structured semantics as a relation, one rule per way a construct can end
    (ExnProofs.eval_iff_ref_run: it is the graph of [ref_run]).  The three rules for PTry are the
    property's sentence "a handler runs if and only if an exception raised in its own try body was
